@@ -56,6 +56,7 @@ def run(ctx):
                 viols.append({
                     "sig": {"kind": "syntax" if name == "<syntax>" else "unbound", "name": name, "site": site,
                             "tag": e["tag"].split("/")[0], "mode": e["mode"],
+                            "flat": closure.is_flattened_name(name, [r for rs in e["yaml"]["einsum"]["declaration"].values() for r in rs]),
                             "einsum": e["yaml"]["einsum"]["expressions"]},
                     "msg": "%s: %s at line %d%s: %s\nmapping: %s\n--- emitted program ---\n%s"
                            % (e["tag"], name, line, (" inside " + site) if site else "", why, e["yaml"].get("mapping"), r["text"]),
@@ -84,6 +85,8 @@ def replay(ctx, case):
     e = case["entry"]
     for name, line, why, site in r["problems"]:
         out.append({"sig": {"kind": "syntax" if name == "<syntax>" else "unbound", "name": name, "site": site,
-                            "tag": e["tag"].split("/")[0], "mode": e["mode"], "einsum": e["yaml"]["einsum"]["expressions"]},
+                            "tag": e["tag"].split("/")[0], "mode": e["mode"],
+                            "flat": closure.is_flattened_name(name, [r for rs in e["yaml"]["einsum"]["declaration"].values() for r in rs]),
+                            "einsum": e["yaml"]["einsum"]["expressions"]},
                     "msg": "%s at line %d: %s" % (name, line, why), "case": case})
     return out
